@@ -18,6 +18,7 @@
 -/
 import Babylon.IdAlloc.LemmasUse
 import Babylon.IdAlloc.Sched
+import Babylon.IdAlloc.Pinned
 import Babylon.IdAlloc.BoxLemmas
 import Babylon.IdAlloc.BoxSched
 
@@ -37,6 +38,47 @@ theorem gen_constants :
 theorem gen_skel_box :
     skel_box_emplace = Skel.boxEmplace ∧ skel_box_take_released = Skel.boxTake ∧
     skel_box_finish_released = Skel.boxFinish := by decide
+
+/-- source text of IdAllocator: allocate (which head the returned id is taken from), deallocate, end, for_each (types of the scan bounds), accessors, class layout -/
+theorem gen_src_alloc :
+    src_allocate = Skel.Pinned.allocate ∧
+    src_deallocate = Skel.Pinned.deallocate ∧
+    src_end = Skel.Pinned.endFn ∧
+    src_for_each = Skel.Pinned.for_each ∧
+    src_next_value = Skel.Pinned.next_value ∧
+    src_free_head = Skel.Pinned.free_head ∧
+    src_decl_versioned_value = Skel.Pinned.decl_versioned_value ∧
+    src_decl_id_allocator = Skel.Pinned.decl_id_allocator :=
+  ⟨rfl, rfl, rfl, rfl, rfl, rfl, rfl, rfl⟩
+/-- source text of ThreadIdImpl: id allocated in the constructor of the thread_local, released in its destructor -/
+theorem gen_src_thread_id :
+    src_tid_current = Skel.Pinned.tid_current ∧
+    src_tid_end = Skel.Pinned.tid_end ∧
+    src_tid_for_each = Skel.Pinned.tid_for_each ∧
+    src_tid_ctor = Skel.Pinned.tid_ctor ∧
+    src_tid_dtor = Skel.Pinned.tid_dtor ∧
+    src_decl_thread_id_impl = Skel.Pinned.decl_thread_id_impl :=
+  ⟨rfl, rfl, rfl, rfl, rfl, rfl⟩
+/-- source text of DepositBox's operations -/
+theorem gen_src_box :
+    src_box_emplace = Skel.Pinned.box_emplace ∧
+    src_box_take = Skel.Pinned.box_take ∧
+    src_box_take_released = Skel.Pinned.box_take_released ∧
+    src_box_finish_released = Skel.Pinned.box_finish_released ∧
+    src_box_unsafe_get = Skel.Pinned.box_unsafe_get ∧
+    src_decl_slot = Skel.Pinned.decl_slot :=
+  ⟨rfl, rfl, rfl, rfl, rfl, rfl⟩
+/-- source text of DepositBox::Accessor: special member functions (move = exchange / swap, release exactly once in the destructor) -/
+theorem gen_src_accessor :
+    src_acc_move_ctor = Skel.Pinned.acc_move_ctor ∧
+    src_acc_move_assign = Skel.Pinned.acc_move_assign ∧
+    src_acc_dtor = Skel.Pinned.acc_dtor ∧
+    src_acc_bool = Skel.Pinned.acc_bool ∧
+    src_acc_arrow = Skel.Pinned.acc_arrow ∧
+    src_acc_star = Skel.Pinned.acc_star ∧
+    src_acc_ctor = Skel.Pinned.acc_ctor ∧
+    src_decl_accessor = Skel.Pinned.decl_accessor :=
+  ⟨rfl, rfl, rfl, rfl, rfl, rfl, rfl, rfl⟩
 
 /-- states reachable by executions that satisfy NoWrap and Cap throughout -/
 abbrev ReachGood (c : Cfg) : State → Prop := Reachable (· = State.init c) (StepR c (Good c))
